@@ -12,6 +12,8 @@ fn build(s:&str)->Option<AccessPolicy>{
             "T"=>{ let d=String::from_utf8(unhex(t.get(*p)?)).ok()?; let n=String::from_utf8(unhex(t.get(*p+1)?)).ok()?; *p+=2; Some(AccessPolicy::Term(QualifiedAttribute::new(&d,&n))) }
             "A"=>{ let l=go(t,p)?; let r=go(t,p)?; Some(AccessPolicy::Conjunction(Box::new(l),Box::new(r))) }
             "O"=>{ let l=go(t,p)?; let r=go(t,p)?; Some(AccessPolicy::Disjunction(Box::new(l),Box::new(r))) }
+            "a"=>{ let l=go(t,p)?; let r=go(t,p)?; Some(l & r) }
+            "o"=>{ let l=go(t,p)?; let r=go(t,p)?; Some(l | r) }
             _=>None }
     }
     let t:Vec<&str>=s.strip_prefix('@')?.split(',').collect(); let mut p=0; let r=go(&t,&mut p)?; if p==t.len(){Some(r)}else{None}
